@@ -24,6 +24,7 @@ type Config struct {
 	BadNM        bool // selected N-M variants get wrong counts / unknown names
 	StopSetters  int  // max number of stop-tag setters
 	DupDAG       bool
+	SlowLayer    bool // cases 1-3 of a run make one DAG call each whose first layer takes 3.5 s
 	EmptyDAG     bool // sometimes all rules are removed at the end and the DAG model is called once more
 	MinRulesNM   bool
 	BigSets      int  // one in BigSets cases uses 24-40 rules (many goroutines in the concurrent stages)
@@ -519,6 +520,30 @@ func RunCase(k *fw.Case, cfg *Config) {
 			lastSel[c.Method] = c
 		}
 		runCall(i, t, c)
+	}
+	if cfg.SlowLayer && k.Index >= 1 && k.Index <= 3 {
+		// three times per run: a layer that takes SECONDS (its laggard holds 3.5 s unless a rule of the next layer
+		// starts): the barrier has no patience limit
+		var a, b *Rule
+		for _, ru := range rs.Rules {
+			if ru.Fails() {
+				continue
+			}
+			if a == nil {
+				a = ru
+			} else if b == nil {
+				b = ru
+			}
+		}
+		if a != nil && b != nil {
+			c := Call{Method: MDAG, DAG: [][]string{{a.Name}, {b.Name}}}
+			lg := NewLog()
+			lg.SetHold(a.ID, &Hold{Forbid: map[int]bool{b.ID: true}, Delay: 3500 * time.Millisecond})
+			out := eng.Invoke(c, lg)
+			k.Eval(1)
+			k.Count("dag_calls_with_a_layer_of_seconds", 1)
+			report(k, cfg, rs, c, out, Check(rs, c, out, false), procs)
+		}
 	}
 	if cfg.EmptyDAG && r.Intn(4) == 0 {
 		// every rule is removed: for the DAG model all names are unknown names now - they are skipped, nothing
